@@ -1,4 +1,5 @@
 import GoPlugin.Lemmas.GrpcBroker
+import GoPlugin.Lemmas.GrpcBrokerTimed
 /-
 C07 — GRPCBroker connects Dial(id) only to the server accepted on that id
 (gRPC without multiplexing; the multiplexed variant is C08).
@@ -170,6 +171,18 @@ example : ∃ s, runFrom pGood init
   refine ⟨(runFrom pGood init
     [.accept 1, .accept 2, .accept 2, .dial 3, .runRecv, .runPark, .runRecv, .runPark, .runRecv, .runPark,
      .dial 2, .dialTake 1, .tick 5000, .dialTimeout 0]).get (by decide), by simp, by decide, by decide, by decide⟩
+
+/-! ### the pending window, in numbers -/
+
+/-- a waiting `Dial` is due at most `dialWindow` ms from now (its deadline was set once, the clock only advances), and
+once due its timeout step is enabled — it does not wait on anything else; likewise every parked conn-info expires at
+most `expiryWindow` ms from now.  Holds for every `Params`; the windows themselves are extracted (5000 ms). -/
+theorem dial_due_within_window (P : Params) (s : State) (h : Reachable P s) :
+    (∀ g (d : Dial), s.dials g = some d → d.pc = .wait →
+        d.deadline ≤ s.now + P.dialWindow ∧ (d.deadline ≤ s.now → (step P s (.dialTimeout g)).isSome)) ∧
+    (∀ t (w : Tw), s.tws t = some w → w.deadline ≤ s.now + P.expiryWindow) := by
+  have ht := timed_of_reachable P s h
+  refine ⟨fun g d hg hw => ⟨ht.dial g d hg, fun hd => by simp [step, hg, hw, hd]⟩, fun t w hw => ht.tw t w hw⟩
 
 /-! ### concurrent dials do not share their dialer -/
 
